@@ -2,7 +2,9 @@ package connprop
 
 import (
 	"context"
+	"errors"
 	"fmt"
+	"net"
 	"runtime"
 	"sync"
 	"sync/atomic"
@@ -40,6 +42,10 @@ type ConvoyCase struct {
 	NoLever bool `json:"nolever,omitempty"`
 	// Names: templates of the spellings of the three addresses (names.go); empty: a0, a1, a2
 	Names []string `json:"names,omitempty"`
+	// ZReady: the lever's connection is READY when its last holder releases it (its
+	// resolver reports an address and the transport is a net.Pipe to a gRPC server
+	// of the case); otherwise it is a client whose resolver never reports anything.
+	ZReady bool `json:"zready,omitempty"`
 }
 
 // ConvoyOp is one call of the convoy.
@@ -48,6 +54,11 @@ type ConvoyOp struct {
 	H int    `json:"h,omitempty"` // handle index (mod len(Held))
 	N int    `json:"n,omitempty"` // rel: the same done func is called from 1+N goroutines
 	A int    `json:"a,omitempty"`
+	// Z (acq): the request is for the LEVER's address: the address whose last
+	// release is inside ClientConn.Close while the request is made. Whatever it
+	// is handed must be open until it releases it, so it cannot be the connection
+	// that is being closed.
+	Z bool `json:"z,omitempty"`
 }
 
 const convoyAddrs = 3
@@ -57,11 +68,17 @@ type closeGate struct {
 	bOnce, eOnce         sync.Once
 }
 
-type gateBuilder struct{ g *closeGate }
+type gateBuilder struct {
+	g     *closeGate
+	ready bool // report one address, so that a transport is made
+}
 
 func (b *gateBuilder) Scheme() string { return "c16gate" }
-func (b *gateBuilder) Build(resolver.Target, resolver.ClientConn, resolver.BuildOptions) (resolver.Resolver, error) {
+func (b *gateBuilder) Build(_ resolver.Target, cc resolver.ClientConn, _ resolver.BuildOptions) (resolver.Resolver, error) {
 	b.g.bOnce.Do(func() { close(b.g.built) })
+	if b.ready {
+		cc.UpdateState(resolver.State{Addresses: []resolver.Address{{Addr: "z"}}})
+	}
 	return &gateResolver{g: b.g}, nil
 }
 
@@ -83,6 +100,8 @@ type convoyHandle struct {
 
 type convoyStats struct {
 	lever    bool
+	zReady   bool // the lever's connection was READY when its last release began
+	zAcqs    int
 	dupCalls int
 	labels   []string
 }
@@ -102,6 +121,7 @@ func runConvoy(cc *ConvoyCase) (st convoyStats, rerr error) {
 	var all []*grpc.ClientConn
 	owner := map[*grpc.ClientConn]int{} // address index of a connection, -1: the lever's
 	var dials [convoyAddrs]int
+	zDials := 0
 	var firstErr atomic.Value
 	fail := func(class, format string, a ...any) {
 		firstErr.CompareAndSwap(nil, newVerr(class, format, a...))
@@ -118,13 +138,46 @@ func runConvoy(cc *ConvoyCase) (st convoyStats, rerr error) {
 	var openOnce sync.Once
 	openGate := func() { openOnce.Do(func() { close(gate.open) }) }
 	defer openGate()
+	var lis *pipeListener
+	if cc.ZReady {
+		lis = &pipeListener{ch: make(chan net.Conn), done: make(chan struct{})}
+		srv := grpc.NewServer()
+		go srv.Serve(lis)
+		defer func() {
+			srv.Stop()
+			lis.Close()
+		}()
+	}
 	dial := func(ctx context.Context, target string, opts ...grpc.DialOption) (*grpc.ClientConn, error) {
 		var c *grpc.ClientConn
 		var err error
 		if target == "z" {
-			c, err = grpc.NewClient("c16gate:///z", grpc.WithResolvers(&gateBuilder{g: gate}), grpc.WithTransportCredentials(insecure.NewCredentials()))
+			o := []grpc.DialOption{grpc.WithResolvers(&gateBuilder{g: gate, ready: cc.ZReady}), grpc.WithTransportCredentials(insecure.NewCredentials())}
+			if cc.ZReady {
+				o = append(o, grpc.WithContextDialer(func(ctx context.Context, _ string) (net.Conn, error) {
+					a, b := net.Pipe()
+					select {
+					case lis.ch <- b:
+						return a, nil
+					case <-lis.done:
+					case <-ctx.Done():
+					}
+					a.Close()
+					b.Close()
+					return nil, errors.New("c16: server of the case gone")
+				}))
+			}
+			c, err = grpc.NewClient("c16gate:///z", o...)
 			if err == nil {
-				c.Connect() // leaves idle mode: the resolver is built (it never resolves anything)
+				c.Connect() // leaves idle mode: the resolver is built (unless ZReady it never resolves anything)
+				for s := c.GetState(); cc.ZReady && s != connectivity.Ready; s = c.GetState() {
+					if !c.WaitForStateChange(ctx, s) {
+						break
+					}
+				}
+				mu.Lock()
+				zDials++
+				mu.Unlock()
 			}
 		} else {
 			// the spelling of the address is never parsed by gRPC
@@ -199,11 +252,12 @@ func runConvoy(cc *ConvoyCase) (st convoyStats, rerr error) {
 
 	// --- the lever: keep the Manager's lock busy ---------------------------------------
 	leverDone := make(chan struct{})
+	var zc *grpc.ClientConn
 	if !cc.NoLever {
 		var zdone func()
-		var zc *grpc.ClientConn
 		var zerr error
 		guarded("Connection(z)", func() { zc, zdone, zerr = m.Connection(bg, "z", connection.DEFAULT) })
+		st.zReady = zc != nil && zc.GetState() == connectivity.Ready
 		built := false
 		select {
 		case <-gate.built:
@@ -242,7 +296,10 @@ func runConvoy(cc *ConvoyCase) (st convoyStats, rerr error) {
 		done func()
 		err  error
 	}
-	var acqs []*acqRes
+	var acqs, zacqs []*acqRes
+	mu.Lock()
+	zBefore := zDials
+	mu.Unlock()
 	var wg sync.WaitGroup
 	var ready atomic.Int64
 	start := make(chan struct{})
@@ -273,6 +330,17 @@ func runConvoy(cc *ConvoyCase) (st convoyStats, rerr error) {
 				})
 			}
 		case "acq":
+			if op.Z {
+				r := &acqRes{ai: -1}
+				zacqs = append(zacqs, r)
+				st.zAcqs++
+				launch(func() {
+					guarded(fmt.Sprintf("op %d: Connection(z)", i), func() {
+						r.conn, r.done, r.err = m.Connection(bg, "z", connection.DEFAULT)
+					})
+				})
+				break
+			}
 			r := &acqRes{ai: mod(op.A, convoyAddrs)}
 			acqs = append(acqs, r)
 			launch(func() {
@@ -304,6 +372,50 @@ func runConvoy(cc *ConvoyCase) (st convoyStats, rerr error) {
 	}
 
 	// --- after the join: what the data implies under every schedule -------------------------
+	// the lever's own address: its last holder began to release it before the
+	// convoy started; the requests of the convoy for it hold what they were handed
+	{
+		how := "had released it before the request was made"
+		if st.lever {
+			how = "was releasing it (the release was inside ClientConn.Close) when the request was made"
+		}
+		var zcur *grpc.ClientConn
+		for _, r := range zacqs {
+			switch {
+			case r.err != nil || r.conn == nil || r.done == nil:
+				return st, newVerr("outcome-not-shared", "convoy request for the lever's address returned (connection nil: %v, done nil: %v, error: %v) although every dial succeeds", r.conn == nil, r.done == nil, r.err)
+			case r.conn.GetState() == connectivity.Shutdown:
+				return st, newVerr("closed-while-held", "after the convoy: the connection handed to a request for the lever's address, which has not released it, is closed (state SHUTDOWN); the last holder of the address's previous connection %s (handed that very connection: %v)", how, r.conn == zc)
+			case zcur != nil && zcur != r.conn:
+				return st, newVerr("redial-while-live", "after the convoy: two requests for the lever's address hold different connections, both unreleased")
+			}
+			zcur = r.conn
+		}
+		if zc != nil && zc.GetState() != connectivity.Shutdown {
+			return st, newVerr("not-closed-at-last-release", "the lever's connection was released by its only holder, but it is in state %v", zc.GetState())
+		}
+		mu.Lock()
+		n := zDials - zBefore
+		mu.Unlock()
+		switch {
+		case len(zacqs) == 0 && n != 0:
+			return st, newVerr("unexpected-dial", "the dial function was invoked %d time(s) for the lever's address during the convoy although nothing in it requests that address", n)
+		case n > 1:
+			return st, newVerr("second-dial-in-flight", "the dial function was invoked %d times for the lever's address during the convoy; its requests hold their connections until afterwards, so at most one dial can have been needed", n)
+		}
+		for k, r := range zacqs {
+			if zcur.GetState() == connectivity.Shutdown {
+				return st, newVerr("closed-while-held", "the connection to the lever's address is closed (state SHUTDOWN) although %d of its %d holders have not released it", len(zacqs)-k, len(zacqs))
+			}
+			guarded("done of a request for the lever's address", r.done)
+		}
+		if e := firstErr.Load(); e != nil {
+			return st, e.(error)
+		}
+		if zcur != nil && zcur.GetState() != connectivity.Shutdown {
+			return st, newVerr("not-closed-at-last-release", "every holder of the connection to the lever's address has released it, but it is in state %v", zcur.GetState())
+		}
+	}
 	for ai := 0; ai < convoyAddrs; ai++ {
 		addr := addrName(ai)
 		var cur *grpc.ClientConn
